@@ -78,7 +78,11 @@ type Pair struct {
 type Req struct {
 	Pairs []Pair
 	Seg   string // path location: the text of the path segment
-	Wire  bool   // send the request as raw bytes over a TCP connection to a real net/http server (query, header, path)
+	// Other: (key, text) pairs sent in the OPPOSITE location of the same request: in the URL query string for a
+	// formData parameter; in an urlencoded / multipart body (OEnc) of a POST for a query parameter.
+	Other []Pair
+	OEnc  string
+	Wire  bool // send the request as raw bytes over a TCP connection to a real net/http server (query, header, path)
 }
 
 func (v Validation) JSON() M {
@@ -91,12 +95,16 @@ func (d Decl) JSON() M {
 		"cf": d.CF, "required": d.Required, "hasdef": d.HasDef, "def": trace.BB(d.Def), "allowEmpty": d.AllowEmpty, "val": d.Val.JSON()}
 }
 
-func (r Req) JSON() M {
-	ps := make([]M, 0, len(r.Pairs))
-	for _, p := range r.Pairs {
+func pairsJSON(in []Pair) []M {
+	ps := make([]M, 0, len(in))
+	for _, p := range in {
 		ps = append(ps, M{"k": trace.B(p.K), "v": trace.B(p.V), "bare": p.Bare, "file": p.File, "fn": trace.B(p.FN)})
 	}
-	return M{"pairs": ps, "seg": trace.B(r.Seg), "wire": r.Wire}
+	return ps
+}
+
+func (r Req) JSON() M {
+	return M{"pairs": pairsJSON(r.Pairs), "seg": trace.B(r.Seg), "other": pairsJSON(r.Other), "oenc": r.OEnc, "wire": r.Wire}
 }
 
 func bindCase(d Decl, reqs []Req) M {
@@ -125,12 +133,21 @@ func declFrom(v any) Decl {
 			Max: trace.Str(vm["max"]), EMin: drv.Bool(vm["emin"]), EMax: drv.Bool(vm["emax"]), Vals: strs(vm["vals"]), Unique: drv.Bool(vm["unique"])}}
 }
 
+func pairsFrom(v any) []Pair {
+	var out []Pair
+	for _, p := range drv.List(v) {
+		pm := drv.Map(p)
+		out = append(out, Pair{K: trace.Str(pm["k"]), V: trace.Str(pm["v"]), Bare: drv.Bool(pm["bare"]), File: drv.Bool(pm["file"]), FN: trace.Str(pm["fn"])})
+	}
+	return out
+}
+
 func reqFrom(v any) Req {
 	m := drv.Map(v)
-	r := Req{Seg: trace.Str(m["seg"]), Wire: drv.Bool(m["wire"])}
-	for _, p := range drv.List(m["pairs"]) {
-		pm := drv.Map(p)
-		r.Pairs = append(r.Pairs, Pair{K: trace.Str(pm["k"]), V: trace.Str(pm["v"]), Bare: drv.Bool(pm["bare"]), File: drv.Bool(pm["file"]), FN: trace.Str(pm["fn"])})
+	r := Req{Seg: trace.Str(m["seg"]), Wire: drv.Bool(m["wire"]), Pairs: pairsFrom(m["pairs"])}
+	if o, ok := m["other"]; ok {
+		r.Other = pairsFrom(o)
+		r.OEnc = drv.Str(m["oenc"])
 	}
 	return r
 }
@@ -263,11 +280,17 @@ func buildAPI(d Decl) (*apiInst, error) {
 	if d.In == "formData" {
 		op["consumes"] = []string{d.consumes()}
 	}
+	ops := map[string]any{strings.ToLower(d.method()): op}
+	if d.In == "query" {
+		// the same query parameter on a POST that carries a form body (requests with Other pairs)
+		ops["post"] = map[string]any{"operationId": "opPost", "parameters": op["parameters"], "responses": op["responses"],
+			"consumes": []string{"application/x-www-form-urlencoded", "multipart/form-data"}}
+	}
 	doc := map[string]any{
 		"swagger":  "2.0",
 		"info":     map[string]any{"title": "c03", "version": "1"},
 		"produces": []string{"application/json"},
-		"paths":    map[string]any{d.routePath(): map[string]any{strings.ToLower(d.method()): op}},
+		"paths":    map[string]any{d.routePath(): ops},
 	}
 	raw, err := json.Marshal(doc)
 	if err != nil {
@@ -286,13 +309,17 @@ func buildAPI(d Decl) (*apiInst, error) {
 	api.RegisterConsumer("application/x-www-form-urlencoded", noop)
 	api.RegisterConsumer("multipart/form-data", noop)
 	a := &apiInst{ran: new(bool), got: new(map[string]interface{})}
-	api.RegisterOperation(d.method(), d.routePath(), runtime.OperationHandlerFunc(func(params interface{}) (interface{}, error) {
+	record := runtime.OperationHandlerFunc(func(params interface{}) (interface{}, error) {
 		*a.ran = true
 		if m, ok := params.(map[string]interface{}); ok {
 			*a.got = m
 		}
 		return "ok", nil
-	}))
+	})
+	api.RegisterOperation(d.method(), d.routePath(), record)
+	if d.In == "query" {
+		api.RegisterOperation(http.MethodPost, d.routePath(), record)
+	}
 	ctx := middleware.NewContext(ld, api, nil)
 	a.handler = ctx.APIHandler(nil)
 	if len(apiCache) > 2048 {
@@ -319,9 +346,47 @@ func encodePairs(ps []Pair) string {
 	return b.String()
 }
 
+// formBody renders pairs as an urlencoded or multipart body.
+func formBody(enc string, ps []Pair) (body io.Reader, contentType string, err error) {
+	if enc == "multipart" {
+		var buf bytes.Buffer
+		w := multipart.NewWriter(&buf)
+		for _, p := range ps {
+			if p.File {
+				fw, e := w.CreateFormFile(p.K, p.FN)
+				if e != nil {
+					return nil, "", e
+				}
+				if _, e = fw.Write([]byte(p.V)); e != nil {
+					return nil, "", e
+				}
+				continue
+			}
+			if e := w.WriteField(p.K, p.V); e != nil {
+				return nil, "", e
+			}
+		}
+		if e := w.Close(); e != nil {
+			return nil, "", e
+		}
+		return &buf, w.FormDataContentType(), nil
+	}
+	return strings.NewReader(encodePairs(ps)), "application/x-www-form-urlencoded", nil
+}
+
 func buildRequest(d Decl, rq Req) (*http.Request, error) {
 	switch d.In {
 	case "query":
+		if len(rq.Other) > 0 {
+			// the query parameter on a POST whose body carries fields too
+			body, ct, err := formBody(rq.OEnc, rq.Other)
+			if err != nil {
+				return nil, err
+			}
+			r := httptest.NewRequest(http.MethodPost, "/p?"+encodePairs(rq.Pairs), body)
+			r.Header.Set("Content-Type", ct)
+			return r, nil
+		}
 		return httptest.NewRequest(http.MethodGet, "/p?"+encodePairs(rq.Pairs), nil), nil
 	case "header":
 		r := httptest.NewRequest(http.MethodGet, "/p", nil)
@@ -333,33 +398,16 @@ func buildRequest(d Decl, rq Req) (*http.Request, error) {
 	case "path":
 		return httptest.NewRequest(http.MethodGet, "/p/"+url.PathEscape(rq.Seg)+"/e", nil), nil
 	case "formData":
-		if d.Enc == "multipart" {
-			var buf bytes.Buffer
-			w := multipart.NewWriter(&buf)
-			for _, p := range rq.Pairs {
-				if p.File {
-					fw, err := w.CreateFormFile(p.K, p.FN)
-					if err != nil {
-						return nil, err
-					}
-					if _, err := fw.Write([]byte(p.V)); err != nil {
-						return nil, err
-					}
-					continue
-				}
-				if err := w.WriteField(p.K, p.V); err != nil {
-					return nil, err
-				}
-			}
-			if err := w.Close(); err != nil {
-				return nil, err
-			}
-			r := httptest.NewRequest(http.MethodPost, "/p", &buf)
-			r.Header.Set("Content-Type", w.FormDataContentType())
-			return r, nil
+		body, ct, err := formBody(d.Enc, rq.Pairs)
+		if err != nil {
+			return nil, err
 		}
-		r := httptest.NewRequest(http.MethodPost, "/p", strings.NewReader(encodePairs(rq.Pairs)))
-		r.Header.Set("Content-Type", "application/x-www-form-urlencoded")
+		target := "/p"
+		if len(rq.Other) > 0 {
+			target += "?" + encodePairs(rq.Other) // a query string next to the form body
+		}
+		r := httptest.NewRequest(http.MethodPost, target, body)
+		r.Header.Set("Content-Type", ct)
 		return r, nil
 	}
 	return nil, fmt.Errorf("unknown location %q", d.In)
@@ -543,7 +591,7 @@ func serve(a *apiInst, d Decl, rq Req) (ev M) {
 	ev = M{"status": 0, "ran": false, "panic": false, "has": false, "val": emptyVal("none"), "dyn": "", "msg": []int{}}
 	var status int
 	var body []byte
-	if rq.Wire && d.In != "formData" {
+	if rq.Wire && d.In != "formData" && len(rq.Other) == 0 {
 		var err error
 		status, body, err = wireRoundTrip(a.handler, d, rq)
 		if err != nil {
